@@ -168,6 +168,7 @@ macro_rules! cascade {
         #[kani::stub(<bitcoin::hashes::hash160::Hash as bitcoin::hashes::Hash>::from_engine, ghost::stub_hash160_fin)]
         #[kani::stub(<bitcoin::hashes::sha256d::Hash as bitcoin::hashes::Hash>::from_engine, ghost::stub_sha256d_fin)]
         #[kani::stub(crate::blockchain::proto::script::is_multisig, stub_is_multisig)]
+        #[kani::stub(bitcoin::Script::is_multisig, stub_is_multisig)]
         #[kani::stub(std::string::String::from_utf8, stub_from_utf8)]
         #[kani::stub(crate::blockchain::proto::script::op_return_data, stub_opret_data)]
         fn $name() {
